@@ -13,7 +13,7 @@ from vt import core
 from vt.main import decide
 from translate import fqn_tr
 
-CLASSES = ["Model", "Package", "Class", "Alias", "Use", "Elem", "Ref"]
+CLASSES = ["Model", "Package", "Class", "Alias", "Use", "Elem", "Ref", "Import", "PyObj"]
 CID = {c: i for i, c in enumerate(CLASSES)}
 
 GRAMMARS = {
@@ -44,13 +44,17 @@ FQN: ID('.'ID)*;
 # _tx_obj_attrs while the model is being built, i.e. while references are resolved)
 GRAMMARS["C"] = GRAMMARS["A"]
 USER_CLASSES = {"C": ["Package", "Class"]}
-LAYOUT = {"A": "A", "B": "B", "C": "A"}
+# D: grammar A plus import statements (several files; FQNImportURI with/without importAs, FQNGlobalRepo)
+GRAMMARS["D"] = GRAMMARS["A"].replace("Model: elems*=Elem refs*=Ref;",
+                                      "Model: imports*=Import elems*=Elem refs*=Ref;\nImport: 'import' importURI=STRING ('as' name=ID)? ';';")
+LAYOUT = {"A": "A", "B": "B", "C": "A", "D": "A"}
 # containment slots in declaration (= textual = pre-order) order
 SLOTS = {
     "A": {"Model": ["elems", "refs"], "Package": ["main", "elems", "refs"], "Class": ["members"], "Alias": [], "Use": []},
     "B": {"Model": ["elems", "refs"], "Package": ["elems", "refs", "main"], "Class": ["members"], "Alias": [], "Use": []},
 }
 SLOTS["C"] = SLOTS["A"]
+SLOTS["D"] = dict(SLOTS["A"], Model=["imports", "elems", "refs"], Import=[])
 NAMES = ["a", "b", "c", "p", "q", "x1"]
 REF_T = {"base": "Class", "owner": "Class", "uses": "Elem", "target": "Elem"}
 
@@ -70,7 +74,7 @@ class Node:
         return [c for s in SLOTS[gid][self.kind] for c in self.kids.get(s, [])]
 
 
-def gen_tree(r, gid, pool, unique, size_hint):
+def gen_tree(r, gid, pool, unique, size_hint, imports=()):
     budget = [size_hint]
 
     def pick_names(k):
@@ -111,6 +115,10 @@ def gen_tree(r, gid, pool, unique, size_hint):
 
     root = Node("Model")
     fill(root, 0)
+    for uri, alias in imports:
+        n = Node("Import", alias or "")
+        n.parent, n.uri = root, uri
+        root.kids.setdefault("imports", []).append(n)
     nodes = []
 
     def number(n):
@@ -246,6 +254,8 @@ def render(nodes, gid, override=None):
                     w(pad + "}")
                 cls_refs(n)
                 w(";\n")
+        elif n.kind == "Import":
+            w(pad + 'import "%s"%s;\n' % (n.uri, (" as " + n.name) if n.name else ""))
         elif n.kind == "Alias":
             w(pad + "alias " + n.name + " = ")
             ref(n, "target", 0, n.refs["target"][0])
@@ -278,7 +288,9 @@ def prune_unrenderable(nodes, gid):
 def d_children(dump, o):
     out = []
     for k, decl, cont, call, val in dump[o]["attrs"]:
-        if decl and cont:
+        # what C10 calls contained: a declared containment attribute, or (objects that are not textX objects,
+        # attributes added by user code) any public, non-callable attribute that is not the parent link
+        if (decl and cont) or (not decl and not call and k != "parent" and not k.startswith("__") and not k.startswith("_tx_")):
             if val[0] == "o" and val[1] is not None:
                 out.append(val[1])
             elif val[0] == "m":
@@ -348,7 +360,7 @@ def loose(k, decl, cont, call):
 
 
 # ---------------------------------------------------------------- Coq side
-IMPORTS = """From TxV Require Import Core.Base Core.Show Model.FqnDefs Gen.SrcFqn Model.Fqn.
+IMPORTS = """From TxV Require Import Core.Base Core.Show Model.FqnDefs Gen.SrcFqn Model.Fqn Model.FqnExt.
 Open Scope string_scope.
 Fixpoint s2l (s : string) : list N := match s with EmptyString => [] | String c s' => Ascii.N_of_ascii c :: s2l s' end.
 Definition show_res (r : result) : string := match r with Found t => "F" ++ show_nat t | Unknown => "U" | OutOfFuel => "X" end.
@@ -372,11 +384,24 @@ Definition cut_model (cuts : list (nat * string * nat)) (m : list obj) : list ob
                     o_attrs := map (cut_attr (fst io) cuts) (o_attrs (snd io)) |}) (combine (seq 0 (List.length m)) m).
 Definition show_case (ps : list (nat * nat)) (m : list obj) (rs : list nat) (qs : list (string * nat))
            (probes : list (list (nat * string * nat) * nat * string * nat)) : string :=
-  show_bool (wf_model m) ++ show_bool (unique_b m) ++ "|" ++
+  show_bool (wf_model m) ++ show_bool (unique_b m) ++ show_bool (parents_decrease m) ++ "|" ++
   sjoin "," (flat_map (fun r => map (fun q => show_res (fqn_resolve (mkconf ps) m r (s2l (fst q)) (snd q))) qs) rs)
   ++ "|" ++
   sjoin "," (map (fun p => let '(cuts, r, tx, T) := p in
                            show_res (fqn_resolve (mkconf ps) (cut_model cuts m) r (s2l tx) T)) probes).
+Definition show_x (r : xresult) : string :=
+  match r with XFound t => "F" ++ show_nat t | XUnknown => "U" | XPostponed => "P" | XOutOfFuel => "X" end.
+Definition mkredir (ps : list (nat * list nat)) (p : nat) : rres :=
+  match find (fun q => Nat.eqb (fst q) p) ps with Some q => RList (snd q) | None => RList [] end.
+(* several models in one table; every query carries the local models of the referrer's model *)
+Definition show_multi (use_redir : bool) (ps : list (nat * nat)) (m : list obj) (rd : list (nat * list nat))
+           (qs : list (nat * list nat * string * nat)) : string :=
+  show_bool (wf_model m) ++ show_bool (parents_decrease m) ++ "|" ++
+  sjoin "," (map (fun q => let '(r, locals, tx, T) := q in
+                           if use_redir then show_x (fqn_import_resolve_r (mkconf ps) (mkredir rd) 3 m r locals [] (s2l tx) T)
+                           else show_x (lift_result (fqn_import_resolve (mkconf ps) m r locals [] (s2l tx) T))) qs).
+Definition show_redir (ps : list (nat * nat)) (m : list obj) (rd : list (nat * list nat)) (qs : list (nat * string * nat)) : string :=
+  "|" ++ sjoin "," (map (fun q => let '(r, tx, T) := q in show_x (fqn_resolve_r (mkconf ps) (mkredir rd) 3 m r (s2l tx) T)) qs).
 Open Scope nat_scope."""
 
 
@@ -596,8 +621,99 @@ def load_corpus():
     return out
 
 
+def owner_redir(dump):
+    """redirection used by the runner's FQN(scope_redirection_logic=...): package -> [its resolved owner class]"""
+    rd = {}
+    for i, o in enumerate(dump):
+        if o["cls"] == "Package":
+            for k, decl, cont, call, val in o["attrs"]:
+                if k == "owner" and val[0] == "o" and val[1] is not None:
+                    rd[i] = [val[1]]
+    return rd
+
+
+def redir_queries(r, c):
+    dump = c["dump"]
+    texts = set()
+    for p, (cl,) in c["redir"].items():
+        pn = [dump[x]["name"] for x in path_ids(dump, p)[:-1]][::-1]
+        kids = [dump[k]["name"] for k in d_children(dump, cl) + d_children(dump, p) if dump[k]["name"]]
+        for k in kids + c["pool"]:
+            texts.add(".".join(pn + [k]))
+            texts.add(".".join(pn[-1:] + [k]))
+            for k2 in r.sample(c["pool"], 1):
+                texts.add(".".join(pn[-1:] + [k, k2]))
+    texts |= {t for t, _ in r.sample(c["names"], min(12, len(c["names"])))}
+    refs = sorted(set(c["referrers"][:2] + list(c["redir"])[:1]))
+    return [[ref, t, r.weighted([("Class", 4), ("Elem", 4), ("Package", 2)])] for ref in refs for t in sorted(texts)]
+
+
 def queries_of(c):
     return [[r, t, T] for r in c["referrers"] for t, T in c["names"]]
+
+
+def eval_ext(chk, X, pycases, mlive, vals, failures, disagreements):
+    """Plain-Python-object cases and several-file cases: model vs implementation, and the property oracle."""
+    for c, mv in zip(pycases, vals[:len(pycases)]):
+        dump, conf = c["py_dump"], c["py_conf"]
+        queries = [[r, t, T] for r in c["py_refs_abs"] for t, T in c["py_names"]]
+        chk.stat("trees with plain Python objects")
+        chk.stat("plain Python objects", sum(1 for o in dump if o["cls"] == "PyObj"))
+        manswers = mv.split("|")[1].split(",") if mv is not None else [None] * len(queries)
+        if mv is not None and mv.split("|")[0][2] != "T":
+            disagreements.append({"case": {"grammar": c["gid"], "text": c["text"], "py": c["py"]}, "model": "parents_decrease fails: " + mv.split("|")[0]})
+        for (r, text, T), ia, ma in zip(queries, c["py_answers"], manswers):
+            parts = text.split(".")
+            i, ends = spec(dump, conf, r, parts, T)
+            applies = unique_on(dump, parts)
+            want = "U" if not ends else "F%d" % ends[0]
+            chk.count(("py", c["text"], json.dumps(c["py"]), r, text, T), nontrivial=len(parts) >= 2)
+            chk.stat("plain-object queries: " + ("resolved" if ia.startswith("F") else "unknown" if ia == "U" else "exception"))
+            case = {"grammar": c["gid"], "text": c["text"], "py": c["py"], "referrer": r, "name": text, "target_class": T, "kind": "plain Python objects"}
+            if ma is not None and ia != ma:
+                disagreements.append({"case": case, "impl": ia, "model": ma})
+            if (applies and ia != want) or ia.startswith("E:"):
+                failures.append({"case": case, "impl": ia, "model": ma, "tags": [],
+                                 "what": "FQN answers %s for %r from object %d; the chains over walked attributes give %s" % (ia, text, r, want)})
+    for c, mv in zip(mlive, vals[len(pycases):]):
+        o = c["out"]
+        world, conf = o["world"], {tuple(p) for p in o["conf"]}
+        locals_ = {int(k): v for k, v in o["locals"].items()}
+        redir = {int(k): v for k, v in o["redir"].items()}
+        chk.stat("several files: provider " + c["provider"])
+        chk.stat("several files: models", len(o["roots"]))
+        names = [(x["cls"], x["name"]) for x in world[:len(c["nodes"])]]
+        if names != [(nd.kind, nd.name) for nd in c["nodes"]]:
+            raise RuntimeError("object numbering of the main file differs: %r" % (names,))
+        manswers = mv.split("|")[1].split(",") if mv is not None and mv.split("|")[1] else [None] * len(c["queries"])
+        if mv is not None and mv.split("|")[0] != "TT":
+            disagreements.append({"case": {"files": c["files"]}, "model": "wf/parents flags " + mv.split("|")[0]})
+        case0 = {"grammar": "D", "provider": c["provider"], "files": c["files"], "text": c["files"]["main.m"], "model_order": o.get("files")}
+        # references of the main file, as resolved while parsing
+        for h, attr, idx, text, T in X.main_refs(c):
+            val = next(v for k, d_, c_, cl, v in world[h]["attrs"] if k == attr)
+            got = val[1] if val[0] == "o" else (val[1][idx] if idx < len(val[1]) else None)
+            parts = text.split(".")
+            k, i, ends = X.spec_multi(world, conf, locals_, redir, h, parts, T)
+            chk.count(("mref", json.dumps(c["files"], sort_keys=True), h, attr, idx), nontrivial=True)
+            chk.stat("several files: parsed references resolved in " + ("own model" if k == 0 else "another model" if k else "?"))
+            if X.unique_multi(world, redir, parts) and (not ends or got != ends[0]):
+                failures.append({"case": dict(case0, holder=h, attr=attr, name=text, kind="reference resolved while parsing"), "impl": got, "tags": [],
+                                 "what": "reference %r of object %d resolved to %s; the first model with a containment chain gives %s" % (text, h, got, ends[:1])})
+        for (r, text, T), ia, ma in zip(c["queries"], o["answers"], manswers):
+            parts = text.split(".")
+            k, i, ends = X.spec_multi(world, conf, locals_, redir, r, parts, T)
+            applies = X.unique_multi(world, redir, parts)
+            want = "U" if not ends else "F%d" % ends[0]
+            chk.count(("multi", json.dumps(c["files"], sort_keys=True), c["provider"], r, text, T), nontrivial=len(parts) >= 2 or bool(k))
+            chk.stat("several files: " + ("resolved in own model" if ia.startswith("F") and k == 0 else "resolved in another model" if ia.startswith("F")
+                                          else "unknown" if ia == "U" else "other"))
+            case = dict(case0, referrer=r, name=text, target_class=T, kind="direct provider call (several files)")
+            if ma is not None and ia != ma:
+                disagreements.append({"case": case, "impl": ia, "model": ma})
+            if (applies and ia != want) or ia.startswith("E:") or ia == "P":
+                failures.append({"case": case, "impl": ia, "model": ma, "tags": [],
+                                 "what": "provider answers %s for %r from object %d; the first model (own, then local models in order) with a chain gives %s" % (ia, text, r, want)})
 
 
 def run(chk):
@@ -614,16 +730,33 @@ def run(chk):
                       "corpus": c["corpus"], "nodes": None, "pool": c.get("pool", ["a", "b"]), "idx": c["corpus"]})
     for i in range(n_trees):
         cases.append(gen_case(chk.rng.split(i), i, thorough))
+    from props import c10_ext as X
+    small = X.small_trees(4 if thorough else 2, ["a", "b"])
+    for k, t in enumerate(small):
+        n_obj = t.count("package ") + t.count("class ")
+        ts = ["Class", "Elem", "Package"]
+        cases.append({"gid": "A", "text": t, "referrers": [0, n_obj], "nodes": None, "pool": ["a", "b"], "idx": "s%d" % k, "probes": [],
+                      "names": [[nm, ts[(k + j) % 3]] for j, nm in enumerate(X.all_names(["a", "b"], 3))], "exhaustive": True})
+    multi = [X.gen_multi_case(chk.rng.split("m%d" % i), i) for i in range(120 if thorough else 16)]
+    mchunks = [multi[i::core.NPROC] for i in range(core.NPROC)]
     # pass 1: parse and dump every tree
     chunks = [cases[i::core.NPROC] for i in range(core.NPROC)]
-    chunks = [c for c in chunks if c]
+    chunks += [[] for _ in range(core.NPROC - len(chunks))]
 
-    def payload(chunk, with_queries):
+    def payload(chunk, with_queries, mchunk=()):
         return {"grammars": GRAMMARS, "classes": CLASSES, "user_classes": USER_CLASSES,
                 "cases": [{"gid": c["gid"], "text": c["text"], "queries": queries_of(c) if with_queries else [],
+                           "py": c.get("py") if with_queries else None,
+                           "redir_queries": c.get("redir_queries", []) if with_queries else [],
+                           "py_queries": [[r, t, T] for r in c["py_refs"] for t, T in c["py_names"]] if with_queries and c.get("py") else [],
                            "e2e": [{"text": p["text"], "holder": p["holder"], "attr": p["attr"], "index": p.get("index", 0)}
-                                   for p in c.get("probes", [])] if with_queries else []} for c in chunk]}
-    outs = core.run_impl_parallel("c10", [payload(ch, False) for ch in chunks])
+                                   for p in c.get("probes", [])] if with_queries else []} for c in chunk],
+                "multi": [{"gid": c["gid"], "provider": c["provider"], "files": c["files"], "main": c["main"],
+                           "queries": c.get("queries", []) if with_queries else []} for c in mchunk]}
+    outs = core.run_impl_parallel("c10", [payload(ch, False, mch) for ch, mch in zip(chunks, mchunks)])
+    for mch, o in zip(mchunks, outs):
+        for c, x in zip(mch, o[len(o) - len(mch):]):
+            c["out"] = x
     failures, disagreements = [], []
     ph["parse+dump"] = round(time.time() - t0, 1)
     t0 = time.time()
@@ -650,22 +783,55 @@ def run(chk):
             r = chk.rng.split("q%s" % c["idx"])
             c["referrers"], c["names"] = gen_queries(r, c, c["dump"], c["conf"], thorough)
             c["probes"] = gen_probes(r.split("p"), c, c["dump"], c["conf"], thorough)
+            if isinstance(c["idx"], int) and c["idx"] % 4 != 0:
+                c["redir"] = owner_redir(c["dump"])
+                if c["redir"]:
+                    c["redir_queries"] = redir_queries(r.split("rd"), c)
+            if isinstance(c["idx"], int) and c["idx"] % 4 == 0 and c["gid"] in ("A", "B"):
+                c["py"], c["py_refs"], c["py_names"] = X.gen_py(r.split("py"), c, c["dump"])
         live.append(c)
+    mlive = []
+    for c in multi:
+        if c["out"]["world"] is None:
+            failures.append({"case": {"grammar": "D", "provider": c["provider"], "files": c["files"], "text": c["files"]["main.m"]}, "tags": [],
+                             "impl": c["out"]["error"],
+                             "what": "files whose references all name existing objects (own file, imported files, aliases) are rejected: %s" % (c["out"]["error"],)})
+            continue
+        c["queries"] = X.multi_queries(chk.rng.split("mq%d" % c["idx"]), c, c["out"])
+        mlive.append(c)
     # pass 2: queries and probes
     chunks = [live[i::core.NPROC] for i in range(core.NPROC)]
-    chunks = [c for c in chunks if c]
-    outs = core.run_impl_parallel("c10", [payload(ch, True) for ch in chunks])
-    for ch, o in zip(chunks, outs):
+    mchunks = [mlive[i::core.NPROC] for i in range(core.NPROC)]
+    outs = core.run_impl_parallel("c10", [payload(ch, True, mch) for ch, mch in zip(chunks, mchunks)])
+    for ch, mch, o in zip(chunks, mchunks, outs):
         for c, x in zip(ch, o):
             if x["dump"] != c["dump"]:
                 raise RuntimeError("the runner is not deterministic on %r" % c["text"])
             c["answers"], c["e2e_out"] = x["answers"], x["e2e"]
+            c["py_dump"], c["py_answers"] = x.get("py_dump"), x.get("py_answers")
+            c["redir_answers"] = x.get("redir_answers")
+            c["py_conf"] = {tuple(p) for p in x.get("py_conf") or []}
+        for c, x in zip(mch, o[len(o) - len(mch):]):
+            if x["world"] != c["out"]["world"] or x["locals"] != c["out"]["locals"]:
+                raise RuntimeError("the runner is not deterministic on %r" % c["files"])
+            c["out"] = x
     ph["queries"] = round(time.time() - t0, 1)
     t0 = time.time()
     # the model on the same cases
     for c in live:
         c["queries"] = queries_of(c)
     exprs = [coq_case(c["dump"], c["conf"], c["referrers"], c["names"], c["probes"]) for c in live]
+    pycases = [c for c in live if c.get("py_dump")]
+    for c in pycases:
+        c["py_refs_abs"] = [r if r >= 0 else len(c["py_dump"]) + r for r in c["py_refs"]]
+        exprs.append(coq_case(c["py_dump"], c["py_conf"], c["py_refs_abs"], c["py_names"]))
+    for c in mlive:
+        exprs.append(X.coq_multi(c, c["out"], c["queries"]))
+    rcases = [c for c in live if c.get("redir_queries")]
+    for c in rcases:
+        rd = "; ".join("(%d, [%s])" % (k, ";".join("%d" % x for x in v)) for k, v in sorted(c["redir"].items()))
+        qs = "; ".join("(%d, %s, %d)" % (r, coq_s(t), CID[T]) for r, t, T in c["redir_queries"])
+        exprs.append("show_redir %s %s [%s] [%s]" % (coq_conf(c["conf"]), coq_tbl(c["dump"]), rd, qs))
     allx, defs = compress(exprs)
     # interleave so that the shards are balanced
     order = sorted(range(len(allx)), key=lambda i: (i % core.NPROC, i))
@@ -683,6 +849,24 @@ def run(chk):
         disagreements.append({"case": "coq evaluation", "model": errs[:2]})
     ph["coq_eval"] = round(time.time() - t0, 1)
     n_sens = 0
+    eval_ext(chk, X, pycases, mlive, vals[len(live):], failures, disagreements)
+    for c, mv in zip(rcases, vals[len(live) + len(pycases) + len(mlive):]):
+        manswers = mv.split("|")[1].split(",") if mv is not None else [None] * len(c["redir_queries"])
+        chk.stat("trees queried with a scope_redirection_logic")
+        for (r, text, T), ia, ma in zip(c["redir_queries"], c["redir_answers"], manswers):
+            parts = text.split(".")
+            k, i, ends = X.spec_multi(c["dump"], c["conf"], {}, c["redir"], r, parts, T)
+            plain = spec(c["dump"], c["conf"], r, parts, T)[1]
+            want = "U" if not ends else "F%d" % ends[0]
+            chk.count(("redir", c["gid"], c["text"], r, text, T), nontrivial=ends != plain)
+            chk.stat("redirection queries: " + ("resolved only through a stand-in object" if ends and not plain else "resolved" if ends else "unknown"))
+            case = {"grammar": c["gid"], "text": c["text"], "referrer": r, "name": text, "target_class": T,
+                    "kind": "FQN(scope_redirection_logic: the owner class stands in for its package)"}
+            if ma is not None and ia != ma:
+                disagreements.append({"case": case, "impl": ia, "model": ma})
+            if (X.unique_multi(c["dump"], c["redir"], parts) and ia != want) or ia.startswith("E:") or ia == "P":
+                failures.append({"case": case, "impl": ia, "model": ma, "tags": [],
+                                 "what": "with redirection the provider answers %s for %r from object %d; chains over contained and stand-in objects give %s" % (ia, text, r, want)})
     for c, mv in zip(live, vals):
         dump, conf = c["dump"], c["conf"]
         uniq_all = all(unique_on(dump, [nm]) for nm in {o["name"] for o in dump if o["name"] is not None})
@@ -695,7 +879,7 @@ def run(chk):
             continue
         flags, body = mv.split("|")[0], mv.split("|")[1]
         manswers = body.split(",") if body else []
-        if flags != "T" + ("T" if uniq_all else "F"):
+        if flags != "T" + ("T" if uniq_all else "F") + "T":
             disagreements.append({"case": {"grammar": c["gid"], "text": c["text"]}, "impl": "wf=T unique=%s" % uniq_all,
                                   "model": "wf/unique flags " + flags})
         if len(manswers) != len(c["queries"]):
@@ -755,9 +939,11 @@ def run(chk):
                        "resolved base/uses/owner/target references) parsed by textX with the FQN provider; per tree the provider is called directly from the root, the "
                        "deepest objects and random objects with every 1-2 part name over the names present, 3-part names, existing long paths, names obtained by walking parent and "
                        "reference attributes, malformed texts, against varying target classes; plus end-to-end parses with one reference replaced by a probe name. "
-                       "non-trivial = name with >= 2 parts or resolved from an ancestor scope; distinct by (text, referrer, name, class)")
+                       "Also: several-file models (grammar D with imports; FQNImportURI, importAs aliases, FQNGlobalRepo): parsed references and direct calls; a custom scope_redirection_logic (owner class stands in for its package); "
+                       "plain Python object graphs hung into parsed models; exhaustive small trees (<= 2 objects quick, <= 4 thorough, names a/b, all dotted names <= 3 parts). "
+                       "non-trivial = name with >= 2 parts or resolved from an ancestor scope / another model / through a stand-in; distinct by (text, referrer, name, class)")
     chk.assumptions += ["translator fqn_tr.py: the attribute filter of find_obj is translated; the remaining statements of FQN.__call__ are compared with the transcribed shape (fail closed)",
-                        "scope_redirection_logic is None (FQN() default); Postponed results cannot occur then",
+                        "several files: the content and order of local_models is observed (dumped by the runner), not derived; redirection callbacks used: importAs (loaded models) and owner class of a package; none returns Postponed",
                         "object tables are dumped through __dict__, type(obj)._tx_attrs and callable() by tools/impl/c10.py",
                         "textx_isinstance is an oracle (conf) in the model; its table is read from the implementation per case"]
     # smallest inputs first: the replay files then show the simplest failing model
